@@ -19,6 +19,7 @@ import (
 	"os"
 	"path/filepath"
 	"strings"
+	"sync"
 	"testing"
 	"time"
 
@@ -52,9 +53,10 @@ type c09Seq struct {
 }
 
 type C09Plan struct {
-	Cases  []c09Case `json:"cases"`
-	Seqs   []c09Seq  `json:"seqs"`
-	Shrink []string  `json:"_shrink"`
+	Cases   []c09Case `json:"cases"`
+	Seqs    []c09Seq  `json:"seqs"`
+	Overlap int       `json:"overlap"` // rounds of overlapping handshakes (legitimate node and impostor) on one listener
+	Shrink  []string  `json:"_shrink"`
 }
 
 var (
@@ -109,6 +111,9 @@ func genC09(seed uint64, tier string) any {
 		p.Cases = append(p.Cases, c09Case{Layer: "mesh", Role: "client", Mode: "receptor", Auth: simnet.Pick(r, []string{"trusted", "trusted", "other"}),
 			Valid: simnet.Pick(r, []string{"valid", "valid", "expired"}), Usage: simnet.Pick(r, []string{"client", "both", "server"}),
 			Names: simnet.Pick(r, []string{"exp", "other", "multi", "none", "exp"}), Pins: simnet.Pick(r, []string{"none", "none", "match256", "nomatch"})})
+	}
+	if r.Bool(0.5) {
+		p.Overlap = r.Range(2, 6)
 	}
 	for i := r.Range(1, 3); i > 0; i-- {
 		sq := c09Seq{Side: simnet.Pick(r, []string{"server", "client"}), Pins: r.Bool(0.7)}
@@ -423,6 +428,101 @@ func runC09(t *testing.T, planAny any, res *simnet.Result) {
 				}
 				if len(res.Violations) > 4 {
 					break
+				}
+			}
+		}
+		// ---- overlapping handshakes on one mutually authenticated stream listener: node-c connects with its own
+		// certificate while node-a connects presenting the same certificate (node-c's identity).  However the two
+		// handshakes interleave, node-a must be refused: the name checked is the node the packets come from.
+		if p.Overlap > 0 && len(res.Violations) == 0 {
+			ncn := m.AddNode("node-c", k)
+			ncn.Start()
+			l2 := m.AddLink(simnet.LinkCfg{Name: "L2", Latency: 2*time.Millisecond + 711*time.Nanosecond, FIFO: true}, "node-c", "node-b", 1)
+			_ = m.Up(l2)
+			time.Sleep(3 * time.Second)
+			srvCert := c09Issue(c09Case{Auth: "trusted", Valid: "valid", Usage: "server", Names: "exp", DNS: true}, trusted, other, "node-b", "node-b", 700001)
+			cCert := c09Issue(c09Case{Auth: "trusted", Valid: "valid", Usage: "client", Names: "exp", DNS: true}, trusted, other, "node-c", "node-c", 700002)
+			scf, skf := write("ovsrv", srvCert)
+			ccf, ckf := write("ovcli", cCert)
+			scfg, err := netceptor.TLSServerConfig{Name: "s", Cert: scf, Key: skf, RequireClientCert: true, ClientCAs: caFile, SkipReceptorNamesCheck: true}.PrepareTLSServerConfig(nb.Net())
+			if err == nil {
+				cfgFor := func(n *simnet.Node) *tls.Config {
+					base, pins, err := netceptor.TLSClientConfig{Name: "c", Cert: ccf, Key: ckf, RootCAs: caFile, SkipReceptorNamesCheck: true}.PrepareTLSClientConfig(n.Net())
+					if err != nil {
+						return nil
+					}
+					_ = n.Net().SetClientTLSConfig("ov", base, pins)
+					c, _ := n.Net().GetClientTLSConfig("ov", "node-b", netceptor.ExpectedHostnameTypeReceptor)
+					return c
+				}
+				cfgA, cfgC := cfgFor(na), cfgFor(ncn)
+				li, lerr := nb.Net().Listen("ovl", scfg)
+				if cfgA != nil && cfgC != nil && lerr == nil {
+					var amu sync.Mutex
+					from := map[string]int{}
+					go func() {
+						for {
+							conn, err := li.Accept()
+							if err != nil {
+								return
+							}
+							amu.Lock()
+							from[strings.Split(conn.RemoteAddr().String(), ":")[0]]++
+							amu.Unlock()
+							go func() {
+								buf := make([]byte, 4)
+								_ = conn.SetReadDeadline(time.Now().Add(5 * time.Second))
+								if _, err := conn.Read(buf); err == nil {
+									_, _ = conn.Write([]byte("pong"))
+								}
+								_ = conn.Close()
+							}()
+						}
+					}()
+					dial := func(n *simnet.Node, cfg *tls.Config) bool {
+						ctx, cancel := context.WithTimeout(context.Background(), 6*time.Second)
+						defer cancel()
+						conn, err := n.Net().DialContext(ctx, "node-b", "ovl", cfg)
+						if err != nil {
+							return false
+						}
+						defer conn.CloseConnection()
+						_, _ = conn.Write([]byte("ping"))
+						buf := make([]byte, 4)
+						_ = conn.SetReadDeadline(time.Now().Add(5 * time.Second))
+						_, err = conn.Read(buf)
+						return err == nil
+					}
+					impostorIn, legitIn := 0, 0
+					for round := 0; round < p.Overlap; round++ {
+						off := time.Duration(simnet.H(res.Seed, "overlap", round)%8000) * time.Microsecond
+						var wg sync.WaitGroup
+						wg.Add(2)
+						go func() {
+							defer wg.Done()
+							if dial(na, cfgA) {
+								impostorIn++
+							}
+						}()
+						go func() {
+							defer wg.Done()
+							time.Sleep(off)
+							if dial(ncn, cfgC) {
+								legitIn++
+							}
+						}()
+						wg.Wait()
+						time.Sleep(500 * time.Millisecond)
+					}
+					_ = li.Close()
+					amu.Lock()
+					asA := from["node-a"]
+					amu.Unlock()
+					res.Add("overlapping_handshake_rounds", int64(p.Overlap))
+					res.Add("probe_legit_overlapping_dials_accepted", int64(legitIn))
+					if impostorIn > 0 || asA > 0 {
+						res.Violate("c09:bad-peer-accepted|mesh-overlap|presents-another-node's-identity", "node-a dialled %d times presenting node-c's certificate while node-c was connecting too: %d of its dials succeeded, the listener accepted %d connections as coming from node-a", p.Overlap, impostorIn, asA)
+					}
 				}
 			}
 		}
